@@ -62,30 +62,68 @@ def proj(J, ch, cb_owner):
 
 
 def cut_after_emit(trace, j_local):
-    """trace: per-tick call lists of ONE track.  Keep everything before its j_local-th emitting call (on/ctl/pgm), then only the
-    note-offs that release notes sounded before the cut (FIFO per note).  Returns (expected trace, tick of the cut)."""
+    """trace: per-tick call lists of ONE track in the fault-free run.  Returns (prefix, cut tick, sounding): prefix = the
+    rows up to the cut with everything before the track's j_local-th emitting call (on/ctl/pgm); sounding = how many
+    notes of each pitch are sounding at the cut."""
     out, n, cut_tick = [], 0, None
     sounding = {}
     for t, calls in enumerate(trace):
         row = []
         for c in calls:
-            if cut_tick is None:
-                if c[0] in ("on", "ctl", "pgm"):
-                    if n == j_local:
-                        cut_tick = t
-                        continue
-                    n += 1
-                if c[0] == "on":
-                    sounding[c[1]] = sounding.get(c[1], 0) + 1
-                if c[0] == "off":
-                    sounding[c[1]] = sounding.get(c[1], 0) - 1
-                row.append(c)
-            else:
-                if c[0] == "off" and sounding.get(c[1], 0) > 0:
-                    sounding[c[1]] -= 1
-                    row.append(c)
+            if cut_tick is not None:
+                break
+            if c[0] in ("on", "ctl", "pgm"):
+                if n == j_local:
+                    cut_tick = t
+                    break
+                n += 1
+            if c[0] == "on":
+                sounding[c[1]] = sounding.get(c[1], 0) + 1
+            if c[0] == "off":
+                sounding[c[1]] = sounding.get(c[1], 0) - 1
+            row.append(c)
         out.append(row)
-    return out, cut_tick
+        if cut_tick is not None:
+            break
+    return out, cut_tick, {k: v for k, v in sounding.items() if v > 0}
+
+
+def device_fault_trace_ok(base_trace, got, j_local):
+    """the failing track under a device fault: identical up to the failing call; afterwards only note-offs, one per note
+    sounding at the fault, each on a tick on which the fault-free run releases that pitch too (the releases keep their
+    due times; which of two overlapping notes of one pitch a release belongs to is not observable)"""
+    prefix, cut, sounding = cut_after_emit(base_trace, j_local)
+    if cut is None:
+        return got == base_trace, "no cut"
+    if got[:cut] != base_trace[:cut] or got[cut][:len(prefix[cut])] != prefix[cut]:
+        return False, "differs before the fault (tick <= %d)" % cut
+    rest = [(cut, c) for c in got[cut][len(prefix[cut]):]] + [(t, c) for t in range(cut + 1, len(got)) for c in got[t]]
+    avail = {}
+    for t in range(cut, len(base_trace)):
+        for c in base_trace[t]:
+            if c[0] == "off":
+                avail[(t, c[1])] = avail.get((t, c[1]), 0) + 1
+    for t, c in rest:
+        if c[0] != "off":
+            return False, "tick %d: %r after the fault" % (t, c)
+        if sounding.get(c[1], 0) <= 0:
+            return False, "tick %d: %r releases a note that was not sounding at the fault" % (t, c)
+        if avail.get((t, c[1]), 0) <= 0:
+            return False, "tick %d: %r is not on a tick the fault-free run releases that pitch" % (t, c)
+        sounding[c[1]] -= 1; avail[(t, c[1])] -= 1
+    # every note sounding at the fault must be released, unless its release falls beyond the horizon: of the S notes of a
+    # pitch sounding at the fault and the B later onsets of that pitch in the fault-free run, A are released within the
+    # horizon there, so at least A - B of the S releases are due within it
+    start = dict(cut_after_emit(base_trace, j_local)[2])
+    for nt, S_ in start.items():
+        A = sum(1 for t in range(cut, len(base_trace)) for c in base_trace[t] if c[0] == "off" and c[1] == nt)
+        A -= sum(1 for c in prefix[cut] if c[0] == "off" and c[1] == nt)
+        ons = [c for t in range(cut, len(base_trace)) for c in base_trace[t] if c[0] == "on" and c[1] == nt]
+        B = len(ons) - sum(1 for c in prefix[cut] if c[0] == "on" and c[1] == nt)
+        released = S_ - sounding.get(nt, 0)
+        if released < min(S_, max(0, A - B)):
+            return False, "note %r sounding at the fault is released %d time(s); at least %d release(s) are due within the horizon" % (nt, released, min(S_, max(0, A - B)))
+    return True, ""
 
 
 class Plan:
@@ -209,7 +247,7 @@ def judge(case, plan, results):
                 want = [calls for calls, _, _ in T[:n]]
                 if rr["ticks"] != want:
                     bad.append(("run-trace", "Timeline.run() made %r, the same scenario ticked by hand made %r" % (rr["ticks"][:12], want[:12])))
-                if rr["now_ticks"] != n - 1:
+                if abs(rr["now_ticks"] - (n - 1)) > 1e-6:
                     bad.append(("clock", "Timeline.run(): %d completed ticks but current_time = %r ticks" % (n - 1, rr["now_ticks"])))
         else:
             esc = [t for t, (_, res, _) in enumerate(T) if res == "exc"]
@@ -248,7 +286,7 @@ def judge(case, plan, results):
                 bad.append(("exception-escaped", "ignore_exceptions is set, yet tick %d raised" % results_.index("exc")))
                 return bad
             for t, x in enumerate(times):
-                if x != t + 1:
+                if abs(x - (t + 1)) > 1e-6:
                     bad.append(("clock", "after %d ticks Timeline.current_time is %r ticks" % (t + 1, x))); break
             failing = set(f for _, f in strikes)
             # the failing tracks leave on the tick of their fault
@@ -307,12 +345,11 @@ def judge(case, plan, results):
                             if M.owner_of(c, cb_owner) == chans[f]:
                                 nl += 1
                             n += 1
-                want, _ = cut_after_emit(base_p, jl)
                 got = proj(J, chans[f], cb_owner)
-                if want != got:
-                    t = next(t for t in range(len(got)) if got[t] != want[t])
-                    bad.append(("failing-track-trace", "device fault on call %d (track on channel %d, tick %d): tick %d has %r, expected %r"
-                                % (case["j"], chans[f], tf, t, got[t], want[t])))
+                ok, why = device_fault_trace_ok(base_p, got, jl)
+                if not ok:
+                    bad.append(("failing-track-trace", "device fault on call %d (track on channel %d, tick %d): %s; its trace %r, fault-free %r"
+                                % (case["j"], chans[f], tf, why, [r_ for r_ in got if r_][:8], [r_ for r_ in base_p if r_][:8])))
         else:
             if first is None:
                 if "exc" in results_:
@@ -330,7 +367,7 @@ def judge(case, plan, results):
                         % (results_.index("exc"), case["ignore"])))
             return bad
         for t, x in enumerate(times):
-            if x != t + 1:
+            if abs(x - (t + 1)) > 1e-6:
                 bad.append(("clock", "after %d ticks Timeline.current_time is %r ticks" % (t + 1, x))); break
         if case["kind"] == "cb_exc":
             if [c for c, _, _ in J] != [c for c, _, _ in N] or [i for _, _, i in J] != [i for _, _, i in N]:
@@ -371,7 +408,7 @@ def judge(case, plan, results):
 def check(run):
     rng = run.rng
     if run.tier == "quick":
-        n_base, per_base = 70, 4
+        n_base, per_base = 60, 4
     else:
         n_base, per_base = 500, 0
     plan, cases = gen_cases(rng, n_base, per_base)
